@@ -855,6 +855,21 @@ pub fn run_write_case(scratch: &Scratch, project: &Project, case: &Value) -> Val
                 fired = true;
             }
         }
+        "stale_same_len" => {
+            // the directory holds the export of an earlier run in which one table had other text of the same length
+            if let Some(rel) = target_rel(idx) {
+                let prev = scratch.root.join("previous_export");
+                let wrote = std::panic::catch_unwind(std::panic::AssertUnwindSafe(|| infos.get_translations().write_to_dir(prev.clone())));
+                if let (Ok(Ok(())), Ok(mut bytes)) = (wrote, std::fs::read(prev.join(&rel))) {
+                    if let Some(pos) = bytes.iter().position(|b| b.is_ascii_alphabetic()) {
+                        bytes[pos] = if bytes[pos] == b'x' { b'y' } else { b'x' };
+                        write_file(&out.join(rel), &bytes);
+                        fired = true;
+                    }
+                }
+                force_remove(&prev);
+            }
+        }
         "stale_dir" => {
             if let Some(rel) = target_rel(idx) {
                 fired = std::fs::create_dir_all(out.join(rel)).is_ok();
